@@ -1,4 +1,4 @@
 CONSTANTS MaxLen = 5 MaxAddr = 24 MaxDepth = 2 Segs = {"code", "data"} StructSeg = "struct"
 SPECIFICATION Spec
-INVARIANTS SegIsolation SwitchKeepsCounters LabelIsExec DephaseRestores GhostAgrees PhaseSetsExec AlignIsNextMultiple AdvanceBySize SaveRestoreLIFO StructEmitsNothing StructOffsets
+INVARIANTS SegIsolation SwitchKeepsCounters LabelIsExec DephaseRestores GhostAgrees PhaseSetsExec AlignIsNextMultiple AdvanceBySize SaveRestoreLIFO CpuEntersCode StructEmitsNothing StructOffsets
 CHECK_DEADLOCK FALSE
